@@ -72,6 +72,28 @@ Definition ok_spec (k : case) : bool :=
       && (negb (plt_free c (fns k)) || list_eqb nd_eqb (map ob_nd sel) (o_replay k))
       && (negb (raw_class k) || list_eqb rt_eqb (map ob_rt sel) (o_raw k))).
 
+(* -r alone: "only show functions executed within the time RANGE" = exactly the records whose
+   timestamp lies in [start, stop] (both ends included, as in the manual's example) *)
+Definition trig_empty (q : rtrig) : bool :=
+  match q_filter q, q_depth q, q_time q with
+  | None, None, None => negb (q_trace_on q || q_trace_off q || q_trace q || q_caller q || q_hide q)
+  | _, _, _ => false
+  end.
+Fixpoint height (n : call) : nat := match n with Call _ _ _ ks => S (fold_right Nat.max 0%nat (map height ks)) end.
+Definition range_only (k : case) : bool :=
+  let c := k_cfg k in
+  forallb (fun f => trig_empty (trig_of c f)) (fns k) && (threshold c =? 0)%N && negb (caller_filter c)
+  && plt_free c (fns k) && forallb (fun n => Z.of_nat (height n) <=? gdepth c) (k_forest k).
+Definition in_window (c : cfg) (t : N) : bool :=
+  ((range_start c =? 0) || (range_start c <=? t))%N && ((range_stop c =? 0) || (t <=? range_stop c))%N.
+Definition ok_range (k : case) : bool :=
+  let c := k_cfg k in
+  negb (range_only k)
+  || (let want := filter (fun r => in_window c (r_time r)) (recs k) in
+      let want4 := map (fun r => (match r_type r with ENTRY => false | EXIT => true end, r_fn r, r_depth r, r_time r)) want in
+      list_eqb rt_eqb want4 (o_raw k)
+      && list_eqb n_eqb (map (fun a => let '(x, f, _, _) := a in (x, f)) want4) (map nd_n (o_replay k))).
+
 (* ---------------------------------------------------------------- record time vs replay time *)
 Record rcase := {
   rr_cfg : cfg; rr_forest : list call; rr_shape : MC.shape;
@@ -108,7 +130,6 @@ Fixpoint mono_thr (c : cfg) (thr : N) (n : call) : bool :=
       let th := match q_time (trig_of c f) with Some t => t | None => thr end in
       (thr <=? th)%N && forallb (mono_thr c th) ks
   end.
-Fixpoint height (n : call) : nat := match n with Call _ _ _ ks => S (fold_right Nat.max 0%nat (map height ks)) end.
 Definition rr_class_of (c : cfg) (f : list call) : bool :=
   let l := flat_map fns_of f in
   forallb (fun n => negb (dur n =? 0)%N && forallb (fun t => negb (dur n =? t)%N) (thresholds c l))
